@@ -62,8 +62,20 @@ def systematic():
     stackg = ['PUSH("a" | "b") ~ POP', 'PUSH(ANY) ~ PUSH(ANY) ~ POP_ALL', 'PUSH(ANY) ~ ("x" | PEEK) ~ DROP', 'PUSH("a")* ~ PEEK_ALL',
               '(PUSH("a") ~ "x")? ~ (DROP | "a")', 'PUSH(ANY) ~ PUSH(ANY) ~ PEEK[0..1] ~ PEEK[-1..]', '(PUSH(ANY) ~ "b" | ANY) ~ (PEEK | ANY)',
               'PUSH("a") ~ (!POP ~ ANY)* ~ POP', '(PUSH(ANY) ~ POP)*', 'PUSH(ANY) ~ PEEK[..] ~ PEEK[1..] ~ PEEK[..-1]']
+    # stack transactions: pops inside a nested, succeeding sequence cross the enclosing checkpoint, then the outer alternative fails
+    stackg += ['PUSH("a") ~ ((PUSH("b") ~ (POP ~ POP) ~ "!") | ("bba" ~ POP))', 'PUSH(ANY) ~ ((PUSH(ANY) ~ (DROP ~ DROP) ~ "!") | PEEK)',
+               'PUSH("a") ~ ((PUSH("b") ~ (POP ~ PEEK) ~ "x") | (ANY ~ ANY ~ POP))', 'PUSH("a") ~ (PUSH("b") ~ (POP ~ POP)? ~ "!")? ~ POP_ALL',
+               'PUSH("a") ~ PUSH("b") ~ ((PUSH("a") ~ (POP ~ POP ~ POP) ~ "!") | PEEK_ALL)', 'PUSH(ANY) ~ (!(PUSH(ANY) ~ (POP ~ POP)) ~ ANY ~ POP | ANY)',
+               'PUSH("a") ~ ((b ~ "!") | ("bba" ~ POP))']
     for s in stackg:
         out.append(grammar_text(s)); out.append(grammar_text(s, "", '"b"', "", '_{ " " }'))
+    out.append(grammar_text('PUSH("a") ~ ((b ~ "!") | ("bba" ~ POP))', "", 'PUSH("b") ~ (POP ~ POP)', ""))
+    out.append(grammar_text('PUSH("a") ~ ((b ~ "!") | ("bba" ~ POP))', "", 'PUSH("b") ~ (POP ~ POP)', "_"))
+    # near-misses of the skip pattern: the negated alternative is a rule of every type and body shape
+    for bmod in MODS:
+        for bbody in ['"a" ~ "b"', '"a" | "b"', '^"a"', '"a"+', "'a'..'b'", '"a" ~ "b" | "b"', '"ab"']:
+            out.append(grammar_text('(!b ~ ANY)* ~ b?', "@", bbody, bmod, '_{ " " }'))
+            out.append(grammar_text('(!(b | "c") ~ ANY)*', "@", bbody, bmod, '_{ " " }'))
     lists = ['("a" ~ "b")* ~ "a"', '("a" ~ b)* ~ "a"', '(b ~ "a")* ~ b', '"a" ~ ("b" ~ "a")*', '(!"b" ~ ANY)*', '(!("a" | "b") ~ ANY)* ~ "a"',
              '(!("ab" | "b" | "") ~ ANY)*', '"a" ~ "b" | "a" ~ "c"', '"a" ~ "b" ~ "c" | "a" ~ "b" ~ "d" | "a"', '"a" ~ ("b" | "c" ~ "d")', '^"a" ~ ^"b"', '"a" ~ "" ~ "b"']
     for s in lists:
